@@ -2128,7 +2128,9 @@ func (f *File) ReadFrom(r io.Reader) (int64, error) {
 			m, err2 := f.writeChunkAt(ch, b[:n], f.offset)
 			f.offset += int64(m)
 
-			if err == nil {
+			// The final, short chunk comes with io.ErrUnexpectedEOF from ReadFull:
+			// that end-of-input marker must not hide the error of writing the chunk.
+			if err2 != nil && (err == nil || errors.Is(err, io.EOF) || errors.Is(err, io.ErrUnexpectedEOF)) {
 				err = err2
 			}
 		}
